@@ -67,7 +67,8 @@ def check(ctx):
     from . import c04, c16
     c04.r_grammar_words(ctx, 'R13.7', order=False)
     c04.r_reviewed_grammar(ctx, 'R13.8', roots={'jet', 'ty'})
-    c16.r_name_tables(ctx, 'R13.6', printer=False)   # parser table = grammar alternatives (the printer side belongs to C15/C16)
+    c04.group_rule(ctx, 'R13.9', r'^<(parse::(Call|CallName)|str::JetName) as parse::PestParse>::parse$', 'construction of calls from the parse (name variant, argument order)', 3)
+    c16.r_name_tables(ctx, 'R13.6')   # parser table = grammar alternatives (the printer side belongs to C15/C16)
     rid = 'R13.1'
     ctx.rule(rid, 'source_type and target_type are total explicit tables over all Elements variants (no default arm, no panic)')
     tabs, universe = jet_tables(ctx)
@@ -115,7 +116,7 @@ def check(ctx):
     table = guards.load_table()
     guards.compare(ctx, rid, ['<ast::CallName as ast::AbstractSyntaxTree>::analyze', '<ast::Call as ast::AbstractSyntaxTree>::analyze',
                               '<ast::Call as ast::AbstractSyntaxTree>::analyze::check_argument_types', '<ast::Call as ast::AbstractSyntaxTree>::analyze::check_output_type'], table, 'call analysis (jet arms)', guards.GUARD_FIELDS,
-                   rowsel=lambda path, r: 'check_' in path or (bool(r['conds']) and r['conds'][0].endswith('=Jet')))
+                   rowsel=lambda path, r: 'check_' in path or any(c.endswith('=Jet') for c in r['conds'][:3]))
     an = ctx.anchor(fx, '<ast::Call as ast::AbstractSyntaxTree>::analyze')
     for kind, p, ret in explore(ctx, an):
         if kind != 'RET' or not p.conds or p.conds[0][1] != 'Jet':
